@@ -191,7 +191,8 @@ class Gen:
         if m < 4:
             name = self.fresh("v", scope)
             self.hit("var-decl")
-            if r.chance(3, 4):
+            # circomspect rejects reads of never-assigned locals, so uninitialised declarations are kept rare
+            if r.chance(9, 10) or name in scope.all_vars():
                 out = ["var", name, "="] + self.expr(scope, 0, self.kind == "template" and r.chance(1, 4)) + [";"]
             else:
                 self.hit("var-decl-noinit")
@@ -202,8 +203,11 @@ class Gen:
             name = self.fresh("a", scope)
             size = r.below(3) + 1
             self.hit("array-decl")
+            out = ["var", name, "[", str(size), "]", ";"]
+            if r.chance(5, 6):
+                out += [name, "[", str(r.below(size)), "]", "="] + self.expr(scope, 1, False) + [";"]
             scope.arrays.append((name, size))
-            return ["var", name, "[", str(size), "]", ";"]
+            return out
         if m < 8:
             return self.simple_stmt(scope)
         if m < 11 and depth < self.max_depth:
@@ -317,6 +321,20 @@ class Gen:
             out += ["signal", "output", s, ";"]
         scope.signals_in += ins
         scope.signals_out += outs
+        if self.callees and r.chance(2, 3):
+            # instantiate an earlier template (cross-definition lookup in the inter-procedural pass)
+            t, np, cins, couts = r.choice(self.callees)
+            cname = self.fresh("c", scope)
+            self.hit("component")
+            out += ["component", cname, "=", t, "("]
+            for i in range(np):
+                if i:
+                    out.append(",")
+                out += self.literal()
+            out += [")", ";"]
+            for i in cins:
+                out += [cname, ".", i, "<=="] + [r.choice(ins)] + [";"]
+            scope.comps.append((cname, t, cins, couts))
         for _ in range(r.below(self.max_stmts) + 1):
             out += self.stmt(scope, 0)
         # make sure outputs are assigned
